@@ -96,7 +96,7 @@ int MPI_File_read_all(MPI_File fh, void *b, int c, MPI_Datatype t, MPI_Status *s
 #define NX 4
 #define NY 32
 #define MAXREC 64
-typedef struct { char cls; char kind[16]; long a, b; char how[8]; } In;
+typedef struct { char cls; char kind[16]; long a, b; char how[8]; long m[6]; } In;
 
 static int rank, np;
 static FILE *out;
@@ -119,14 +119,16 @@ static int val(int seq, int rk, int j) { return 1000 * (seq % 1000) + 10 * (rk +
 
 static int parse_in(char *s, In *in)
 {
-    char *t[6]; int n = 0;
-    for (char *p = strtok(s, " \t\n"); p && n < 6; p = strtok(NULL, " \t\n")) t[n++] = p;
+    char *t[8]; int n = 0;
+    for (char *p = strtok(s, " \t\n"); p && n < 8; p = strtok(NULL, " \t\n")) t[n++] = p;
     memset(in, 0, sizeof *in);
     if (n == 0) return -1;
     in->cls = t[0][0];
     switch (in->cls) {
     case 'V': case 'I': in->a = n > 1 ? atol(t[1]) : 0; break;
-    case 'E': case 'D': if (n > 1) strncpy(in->kind, t[1], 15); in->a = n > 2 ? atol(t[2]) : 0; break;
+    case 'E': case 'D': if (n > 1) strncpy(in->kind, t[1], 15); in->a = n > 2 ? atol(t[2]) : 0;
+        { int i; for (i = 0; i < 6; i++) in->m[i] = n > i + 2 ? atol(t[i + 2]) : 0; } break;
+    case 'M': { int i; for (i = 0; i < 6; i++) in->m[i] = n > i + 1 ? atol(t[i + 1]) : 0; } break;
     case 'P': in->a = n > 1 ? atol(t[1]) : 0; in->b = n > 2 ? atol(t[2]) : 0; strncpy(in->how, n > 3 ? t[3] : "all", 7); break;
     default: break;
     }
@@ -233,6 +235,58 @@ static int do_getput(const char *api, int isput, int ncid, int varid, int isrec,
     return -99999;
 }
 
+/* one collective metadata call; m = {name, name2, ident, xtype, len, vals} */
+static int meta_call(const char *kind, int ncid, long *m, int bad, int munit, int vr, int vf, int nv0, int nv1, int dy, int dx)
+{
+    char nm[32], nm2[32];
+    int ret = -99999;
+    if (!strcmp(kind, "putatt")) {
+        int varid2 = m[2] == 0 ? NC_GLOBAL : m[2] == 1 ? vr : vf;
+        MPI_Offset ne = (MPI_Offset)m[4] * munit, i2;
+        int *ab = (int *)malloc((size_t)(ne > 0 ? ne : 1) * sizeof(int));
+        for (i2 = 0; i2 < ne; i2++) ab[i2] = (int)(m[5] + (i2 % 1000));
+        if (bad) snprintf(nm, sizeof nm, "a/b"); else snprintf(nm, sizeof nm, "att%ld", m[0]);
+        if (m[3] == 2) ret = ncmpi_put_att_text(ncid, varid2, nm, ne * 4, (const char *)ab);
+        else if (m[3] >= 3) {     /* the flexible API: the in-memory type follows xtype (3: NC_INT, 4: NC_DOUBLE) */
+            double *db = (double *)calloc((size_t)(ne > 0 ? ne : 1), sizeof(double));
+            for (i2 = 0; i2 < ne; i2++) db[i2] = (double)(m[5] + (i2 % 1000));
+            ret = m[3] == 3 ? ncmpi_put_att(ncid, varid2, nm, NC_INT, ne, ab) : ncmpi_put_att(ncid, varid2, nm, NC_DOUBLE, ne, db);
+            free(db);
+        }
+        else ret = ncmpi_put_att_int(ncid, varid2, nm, m[3] == 1 ? NC_DOUBLE : NC_INT, ne, ab);
+        free(ab);
+    } else if (!strcmp(kind, "defdim")) {
+        int nd;
+        if (bad) snprintf(nm, sizeof nm, "a/b"); else snprintf(nm, sizeof nm, "dim%ld", m[0]);
+        ret = ncmpi_def_dim(ncid, nm, (MPI_Offset)m[4] + 1, &nd);
+    } else if (!strcmp(kind, "defvar")) {
+        int nv, dd[2];
+        dd[0] = (m[5] % 2) ? dx : dy; dd[1] = (m[5] % 2) ? dy : dx;
+        if (bad) snprintf(nm, sizeof nm, "a/b"); else snprintf(nm, sizeof nm, "var%ld", m[0]);
+        ret = ncmpi_def_var(ncid, nm, m[3] == 1 ? NC_DOUBLE : NC_INT, (int)m[4], dd, &nv);
+    } else if (!strcmp(kind, "renamedim")) {
+        if (bad) snprintf(nm, sizeof nm, "/"); else snprintf(nm, sizeof nm, "%c", (char)('a' + m[0]));
+        ret = ncmpi_rename_dim(ncid, m[2] ? dx : dy, nm);
+    } else if (!strcmp(kind, "renameatt")) {
+        snprintf(nm, sizeof nm, "att%ld", m[0]);
+        if (bad) snprintf(nm2, sizeof nm2, "a/"); else snprintf(nm2, sizeof nm2, "at%c", (char)('a' + m[1]));
+        ret = ncmpi_rename_att(ncid, m[2] ? vr : NC_GLOBAL, nm, nm2);
+    } else if (!strcmp(kind, "delatt")) {
+        snprintf(nm, sizeof nm, "att%ld", m[0]);
+        ret = ncmpi_del_att(ncid, m[2] ? vr : NC_GLOBAL, nm);
+    } else if (!strcmp(kind, "copyatt")) {
+        snprintf(nm, sizeof nm, "att%ld", m[0]);
+        ret = ncmpi_copy_att(ncid, NC_GLOBAL, nm, ncid, m[2] ? vf : vr);
+    } else if (!strcmp(kind, "setfill")) {
+        int oldm;
+        ret = ncmpi_set_fill(ncid, m[3] ? NC_FILL : NC_NOFILL, &oldm);
+    } else if (!strcmp(kind, "defvarfill")) {
+        int fv = (int)m[5];
+        ret = ncmpi_def_var_fill(ncid, m[2] ? nv1 : nv0, (int)m[3], m[4] ? &fv : NULL);
+    }
+    return ret;
+}
+
 static void run_case(char *line, const char *outdir, int seq)
 {
     char api[32], vk[8], idbuf[64], path[512], *bar, *parts[MAXR + 1];
@@ -278,6 +332,15 @@ static void run_case(char *line, const char *outdir, int seq)
     ncmpi_def_var(ncid, "rvar", NC_INT, 2, dims, &vr); ncmpi_def_var_fill(ncid, vr, 0, NULL);
     ncmpi_def_var(ncid, "qvar", NC_INT, 2, dims, &vq);
     dims[0] = dy; ncmpi_def_var(ncid, "fvar", NC_INT, 2, dims, &vf);
+    int munit = !strncmp(extra, "big", 3) ? 65536 : 1;     /* metadata cases: attribute payload unit (big: 4 units = 1 MiB) */
+    if (!strncmp(api, "meta_", 5)) {
+        int *ab = (int *)calloc((size_t)4 * munit, sizeof(int)), two[2] = {1, 2};
+        ncmpi_put_att_int(ncid, NC_GLOBAL, "att1", NC_INT, (MPI_Offset)4 * munit, ab);
+        ncmpi_put_att_int(ncid, NC_GLOBAL, "att2", NC_INT, 2, two);
+        ncmpi_put_att_int(ncid, vr, "att1", NC_INT, 2, two);
+        ncmpi_put_att_int(ncid, vr, "att2", NC_INT, 2, two);
+        free(ab);
+    }
     ncmpi_enddef(ncid);
     /* populate: rank 0 writes records [0,nr0) of rvar and all of fvar */
     {
@@ -347,6 +410,26 @@ static void run_case(char *line, const char *outdir, int seq)
             ret = ncmpi_wait_all(ncid, cnt, reqs, sts);
         }
         rec_on = 0;
+    }
+    else if (!strncmp(api, "meta_", 5)) {
+        /* collective metadata calls; per-rank input `M name name2 ident xtype len vals` (numbers -> concrete arguments in
+           meta_call below) or `E badname name name2 ident xtype len vals` (the same with an illegal name) */
+        const char *kind = api + 5;
+        int dm = kvi(line, "dm", 0), bad = (me->cls == 'E'), nv0 = vr, nv1 = vq;
+        if (!dm) {
+            ncmpi_redef(ncid);
+            if (!strcmp(kind, "defvarfill")) {      /* fill values can only be given to variables without data */
+                int d2[2] = {dy, dx};
+                ncmpi_def_var(ncid, "nv0", NC_INT, 2, d2, &nv0); ncmpi_def_var(ncid, "nv1", NC_INT, 2, d2, &nv1);
+            }
+        }
+        phase = "call"; rec_on = 1;
+        ret = meta_call(kind, ncid, me->m, bad, munit, vr, vf, nv0, nv1, dy, dx);
+        rec_on = 0; phase = "post";
+        /* without safe mode a rank whose argument was refused has not changed its header: repeat the call with the legal
+           name so that the ranks agree again before the collective calls that follow */
+        if (bad && !safe) meta_call(kind, ncid, me->m, 0, munit, vr, vf, nv0, nv1, dy, dx);
+        if (!dm) ncmpi_enddef(ncid);
     }
     else if (!strcmp(api, "fill_var_rec")) {
         int vid = vr; MPI_Offset recno = me->a;
